@@ -406,6 +406,20 @@ theorem scenario_outcomes (m : Mode) (pre c u reply : Bytes) :
     (scenario .clientHalf pre c u reply .halfClose).clSaw = u ++ reply := by
   cases m <;> simp [scenario, closeHistory, run, step, Tun.init]
 
+/-- The closing order "client half-closes, the upstream answers and stays idle, the server closes the client
+connection" (`c09.tunnel`, order `halfidle`): on the repaired rule the client has the reply, the upstream the whole
+stream, and the handler has ended; the rule before the repair loses the reply; the rejected symmetric rule
+delivers it but the handler does not end. -/
+theorem scenario_half_idle (pre c u reply : Bytes) :
+    ((scenario .clientHalf pre c u reply .halfIdle).upSaw = pre ++ c ∧
+     (scenario .clientHalf pre c u reply .halfIdle).clSaw = u ++ reply ∧
+     (scenario .clientHalf pre c u reply .halfIdle).torn = true) ∧
+    ((scenario .firstEnds pre c u reply .halfIdle).clSaw = u ∧
+     (scenario .firstEnds pre c u reply .halfIdle).torn = true) ∧
+    ((scenario .halfClose pre c u reply .halfIdle).clSaw = u ++ reply ∧
+     (scenario .halfClose pre c u reply .halfIdle).torn = false) := by
+  simp [scenario, closeHistory, run, step, Tun.init, serverClose]
+
 /-! ## PROXY protocol header -/
 
 /-- The line `WriteProxyHeader` writes, as coded: `PROXY`, the family chosen from the *client* address
